@@ -119,6 +119,7 @@ Proof. exact (conj (fun T zero add leb ltb isnan a lim => proj1 (cbu_error_cases
    the selected cells and fm = prob_m / prod(deltas), so that all theorems above apply to what _compute returns;
    with the warning the whole grid and fm = 0 *)
 Theorem C02_compute_is_selection : forall cdfv cond coords deltas alpha m pm fm,
+  Forall (fun c => (2 <= length c)%nat) coords ->
   nonnegR (cell_prob cdfv cond coords deltas) ->
   (Rregion cdfv cond coords deltas alpha = (HdrOk m pm false, fm) ->
      exists sel, Rcbu (cell_prob cdfv cond coords deltas) (1 - alpha) = CbuOk sel pm false /\
@@ -128,10 +129,16 @@ Theorem C02_compute_is_selection : forall cdfv cond coords deltas alpha m pm fm,
      sum_all (cell_prob cdfv cond coords deltas) < 1 - alpha /\
      m = map (fun _ => true) (cell_prob cdfv cond coords deltas) /\ fm = 0).
 Proof.
-  exact (fun cdfv cond coords deltas alpha m pm fm Hn =>
-           conj (region_ok cdfv cond coords deltas alpha m pm fm Hn)
-                (fun Hd => region_warned cdfv cond coords deltas alpha m pm fm Hn Hd)).
+  exact (fun cdfv cond coords deltas alpha m pm fm H2 Hn =>
+           conj (region_ok cdfv cond coords deltas alpha H2 m pm fm Hn)
+                (fun Hd => region_warned cdfv cond coords deltas alpha H2 m pm fm Hn Hd)).
 Qed.
+
+(* a grid axis with fewer than two cells (e.g. a non-positive cell size): IndexError, nothing is returned *)
+Theorem C02_short_axis_is_an_error : forall cdfv cond coords deltas alpha,
+  Exists (fun c : list R => (length c < 2)%nat) coords ->
+  Rregion cdfv cond coords deltas alpha = (HdrIndexError, 0).
+Proof. exact region_short_axis. Qed.
 
 (* a grid start + i*delta (arange in exact arithmetic) has spacing dx = delta: the hypothesis `deltas = map dx_of coords`
    of C02_cell_probabilities holds for it *)
@@ -173,3 +180,4 @@ Print Assumptions C02_float_entry_points.
 Print Assumptions C02_error_branches.
 Print Assumptions C02_compute_is_selection.
 Print Assumptions C02_equidistant_grid_spacing.
+Print Assumptions C02_short_axis_is_an_error.
